@@ -64,7 +64,7 @@ PROPS['C15'] = {
         'the concatenation theorem A ++ "..." ++ B itself (a two-run statement) is not mechanised',
         'inside nested flow collections the flag flow_mapping_started can be stale (one boolean for a stack of collections): observed, belongs to C03 (not applicable)',
     ],
-    'trust': PARSER_TRUST + SCANNER_TRUST,
+    'trust': PARSER_TRUST,   # + SCANNER_TRUST, added below once it is defined
 }
 PROPS['C17'] = {
     'units': ['parser'],
@@ -96,6 +96,7 @@ SCANNER_TRUST = ['input model: Input::rem()/avail()/buffered()/cap() are ghost m
                  'ASSUMED (A2): token_count + 8 fits in usize (axiom_token_count_fits)',
                  'rewrites R8 (`&mut self.simple_keys` -> `self.simple_keys.iter_mut()`, what <&mut Vec as IntoIterator>::into_iter calls) and R9 (the one format! error message evaluated in an external_body helper)']
 
+PROPS['C15']['trust'] = PARSER_TRUST + SCANNER_TRUST
 PROPS['C04'] = {
     'units': ['parser'],
     'level': 'proof',
